@@ -4,24 +4,252 @@ import PhyVerif.Spec.C19
 namespace PhyVerif.C19.Lemmas
 open PhyVerif PhyVerif.C19
 
-theorem emit_outcomes (ops : List EOp) (h : WellNested ops 0) :
-    erun EState.init ops = emitsSpec [] ops := by
-  sorry
-
-theorem silent_restores (ops : List EOp) (h : WellNested ops 0) :
-    (erunState EState.init ops).silent = (decide ((depthFlag ops).1 > 0) || (depthFlag ops).2) := by
-  sorry
+/-! ### a single emit -/
 
 theorem silenced_emit_none (st : EState) (e s : Nat) (single : Bool) (h : st.silent = true) :
     emit st e s single = ⟨[], .none⟩ := by
-  sorry
+  simp [emit, h]
+
+/-- the sender/event filter used by both the loop and the specification -/
+def matchesEv (e s : Nat) (c : Cb) : Bool :=
+  c.event == e && (match c.sender with | none => true | some x => x == s)
+
+theorem emitLoop_cons (e s : Nat) (single : Bool) (c : Cb) (cs : List Cb) (res : List Nat) :
+    emitLoop e s single (c :: cs) res =
+      (if matchesEv e s c then
+        (if single then ⟨res ++ [c.id], .one c.id⟩ else emitLoop e s single cs (res ++ [c.id]))
+      else emitLoop e s single cs res) := by
+  obtain ⟨ev, sd, i, ow, la⟩ := c
+  cases sd <;> simp [emitLoop, matchesEv]
+
+theorem emitLoop_eq (e s : Nat) (single : Bool) (l : List Cb) (res : List Nat) :
+    emitLoop e s single l res =
+      (if single then
+        match (l.filter (matchesEv e s)).map (·.id) with
+        | [] => ⟨res, .list res⟩
+        | i :: _ => ⟨res ++ [i], .one i⟩
+      else ⟨res ++ (l.filter (matchesEv e s)).map (·.id), .list (res ++ (l.filter (matchesEv e s)).map (·.id))⟩) := by
+  induction l generalizing res with
+  | nil => cases single <;> simp [emitLoop]
+  | cons c cs ih =>
+    rw [emitLoop_cons]
+    by_cases hm : matchesEv e s c = true
+    · rw [if_pos hm]
+      cases single
+      · simp [ih, hm]
+      · simp [hm]
+    · rw [if_neg hm, ih]
+      simp [hm]
+
+theorem filter_reorder (p : Cb → Bool) (l : List Cb) :
+    (l.filter (fun c => !c.last) ++ l.filter (fun c => c.last)).filter p =
+      (l.filter p).filter (fun c => !c.last) ++ (l.filter p).filter (fun c => c.last) := by
+  simp only [List.filter_append, List.filter_filter]
+  congr 1
+  · apply List.filter_congr; intro x _; exact Bool.and_comm _ _
+  · apply List.filter_congr; intro x _; exact Bool.and_comm _ _
 
 theorem emit_eq_spec (st : EState) (e s : Nat) (single : Bool) (h : st.silent = false) :
     emit st e s single = emitSpec st.cbs e s single := by
-  sorry
+  have hs : shouldCall st.cbs e s =
+      ((st.cbs.filter (fun c => !c.last) ++ st.cbs.filter (fun c => c.last)).filter
+        (matchesEv e s)).map (·.id) := by
+    rw [filter_reorder]; rfl
+  unfold emit emitSpec
+  simp only [h, Bool.false_eq_true, if_false]
+  rw [emitLoop_eq, hs]
+  generalize List.map (·.id) (List.filter (matchesEv e s)
+    (List.filter (fun c => !c.last) st.cbs ++ List.filter (fun c => c.last) st.cbs)) = ids
+  cases single
+  · simp
+  · cases ids <;> simp
+
+/-! ### histories -/
+
+theorem registered_eq (ops : List EOp) :
+    registered ops = ops.foldl (fun acc op =>
+      match op with
+      | .connect c => acc ++ [c]
+      | .unconnect items => acc.filter (keeps items)
+      | .reset => []
+      | _ => acc) [] := by
+  cases ops <;> rfl
+
+theorem registered_snoc (pre : List EOp) (op : EOp) :
+    registered (pre ++ [op]) =
+      (match op with
+      | .connect c => registered pre ++ [c]
+      | .unconnect items => (registered pre).filter (keeps items)
+      | .reset => []
+      | _ => registered pre) := by
+  rw [registered_eq, registered_eq, List.foldl_append]
+  cases op <;> rfl
+
+theorem depthFlag_snoc (pre : List EOp) (op : EOp) :
+    depthFlag (pre ++ [op]) =
+      (match op with
+      | .enterSilent => ((depthFlag pre).1 + 1, (depthFlag pre).2)
+      | .exitSilent => ((depthFlag pre).1 - 1, (depthFlag pre).2)
+      | .setSilent b => ((depthFlag pre).1, b)
+      | _ => depthFlag pre) := by
+  unfold depthFlag
+  rw [List.foldl_append]
+  cases op <;> rfl
+
+/-- the values saved by `d` nested `silent()` frames over a base flag `f` (innermost first) -/
+def savedOf : Nat → Bool → List Bool
+  | 0, _ => []
+  | n + 1, f => (decide (n > 0) || f) :: savedOf n f
+
+structure Inv (pre : List EOp) (st : EState) : Prop where
+  cbs : st.cbs = registered pre
+  saved : st.saved = savedOf (depthFlag pre).1 (depthFlag pre).2
+  silent : st.silent = (decide ((depthFlag pre).1 > 0) || (depthFlag pre).2)
+
+theorem inv_init : Inv [] EState.init := ⟨rfl, rfl, rfl⟩
+
+theorem inv_step (pre : List EOp) (st : EState) (op : EOp) (ops : List EOp)
+    (hi : Inv pre st) (hw : WellNested (op :: ops) (depthFlag pre).1) :
+    Inv (pre ++ [op]) (estep st op).1 ∧ WellNested ops (depthFlag (pre ++ [op])).1 := by
+  obtain ⟨hc, hsv, hsl⟩ := hi
+  cases op with
+  | connect c =>
+    refine ⟨⟨?_, ?_, ?_⟩, ?_⟩ <;>
+      simp_all [estep, registered_snoc, depthFlag_snoc, WellNested]
+  | unconnect items =>
+    refine ⟨⟨?_, ?_, ?_⟩, ?_⟩ <;>
+      simp_all [estep, registered_snoc, depthFlag_snoc, WellNested]
+  | reset =>
+    refine ⟨⟨?_, ?_, ?_⟩, ?_⟩ <;>
+      simp_all [estep, registered_snoc, depthFlag_snoc, WellNested]
+  | emit e s single =>
+    refine ⟨⟨?_, ?_, ?_⟩, ?_⟩ <;>
+      simp_all [estep, registered_snoc, depthFlag_snoc, WellNested]
+  | setSilent b =>
+    simp only [WellNested] at hw
+    obtain ⟨h0, hw⟩ := hw
+    refine ⟨⟨?_, ?_, ?_⟩, ?_⟩
+    · simpa [estep, registered_snoc] using hc
+    · simp only [estep, depthFlag_snoc, hsv, h0, savedOf]
+    · simp [estep, depthFlag_snoc, h0]
+    · simpa [depthFlag_snoc] using hw
+  | enterSilent =>
+    simp only [WellNested] at hw
+    refine ⟨⟨?_, ?_, ?_⟩, ?_⟩
+    · simpa [estep, registered_snoc] using hc
+    · simp only [estep, depthFlag_snoc, savedOf, hsv, hsl]
+    · simp [estep, depthFlag_snoc]
+    · simpa [depthFlag_snoc] using hw
+  | exitSilent =>
+    simp only [WellNested] at hw
+    obtain ⟨hpos, hw⟩ := hw
+    obtain ⟨n, hn⟩ : ∃ n, (depthFlag pre).1 = n + 1 := ⟨(depthFlag pre).1 - 1, by omega⟩
+    have hsv' : st.saved = (decide (n > 0) || (depthFlag pre).2) :: savedOf n (depthFlag pre).2 := by
+      rw [hsv, hn]; rfl
+    refine ⟨⟨?_, ?_, ?_⟩, ?_⟩
+    · simp only [estep, hsv', registered_snoc]; exact hc
+    · simp only [estep, hsv', depthFlag_snoc, hn, Nat.add_sub_cancel]
+    · simp only [estep, hsv', depthFlag_snoc, hn, Nat.add_sub_cancel]
+    · simpa [depthFlag_snoc] using hw
+
+theorem erun_eq (ops : List EOp) : ∀ (pre : List EOp) (st : EState),
+    Inv pre st → WellNested ops (depthFlag pre).1 → erun st ops = emitsSpec pre ops := by
+  induction ops with
+  | nil => intros; rfl
+  | cons op ops ih =>
+    intro pre st hi hw
+    obtain ⟨hi', hw'⟩ := inv_step pre st op ops hi hw
+    have := ih _ _ hi' hw'
+    cases op with
+    | emit e s single =>
+      simp only [erun, estep, emitsSpec]
+      simp only [estep] at this
+      rw [this]
+      congr 1
+      by_cases hs : st.silent = true
+      · rw [silenced_emit_none _ _ _ _ hs, if_pos]
+        rw [← hi.silent]; exact hs
+      · have hs' : st.silent = false := by simpa using hs
+        rw [emit_eq_spec _ _ _ _ hs', if_neg, hi.cbs]
+        rw [← hi.silent]; exact hs
+    | exitSilent =>
+      have hn : (estep st EOp.exitSilent).2 = none := by
+        cases hsv : st.saved <;> simp [estep, hsv]
+      simp only [erun, emitsSpec, hn]
+      exact this
+    | _ => simpa [erun, emitsSpec, estep] using this
+
+theorem erunState_inv (ops : List EOp) : ∀ (pre : List EOp) (st : EState),
+    Inv pre st → WellNested ops (depthFlag pre).1 → Inv (pre ++ ops) (erunState st ops) := by
+  induction ops with
+  | nil => intro pre st hi _; simpa [erunState] using hi
+  | cons op ops ih =>
+    intro pre st hi hw
+    obtain ⟨hi', hw'⟩ := inv_step pre st op ops hi hw
+    have := ih _ _ hi' hw'
+    simpa [erunState] using this
+
+theorem emit_outcomes (ops : List EOp) (h : WellNested ops 0) :
+    erun EState.init ops = emitsSpec [] ops :=
+  erun_eq ops [] EState.init inv_init h
+
+theorem silent_restores (ops : List EOp) (h : WellNested ops 0) :
+    (erunState EState.init ops).silent = (decide ((depthFlag ops).1 > 0) || (depthFlag ops).2) := by
+  have := (erunState_inv ops [] EState.init inv_init h).silent
+  simpa using this
+
+/-! ### reporter -/
+
+theorem setValue_obs (st : RState) (v : Int) (before : List RObs)
+    (hinv : st.completed = announcedSince before) :
+    ((setValue st v).2.complete == shouldAnnounce before true v st.max) = true ∧
+    (setValue st v).1.completed =
+      announcedSince (⟨true, true, (setValue st v).1.value, st.max, (setValue st v).1.max,
+        (setValue st v).2.complete⟩ :: before) := by
+  simp only [setValue, shouldAnnounce, announcedSince, ← hinv]
+  by_cases h : v < st.max
+  · have h' : ¬ v ≥ st.max := by omega
+    simp [h, h']
+  · have h' : v ≥ st.max := by omega
+    cases st.completed <;> simp [h, h']
+
+theorem rstep_obs (st : RState) (op : ROp) (before : List RObs)
+    (hinv : st.completed = announcedSince before) :
+    ((obsOf (st, op, (rstep st op).1, (rstep st op).2)).announced ==
+        shouldAnnounce before (obsOf (st, op, (rstep st op).1, (rstep st op).2)).valueUpdate
+          (obsOf (st, op, (rstep st op).1, (rstep st op).2)).value
+          (obsOf (st, op, (rstep st op).1, (rstep st op).2)).maxBefore) = true ∧
+    (rstep st op).1.completed =
+      announcedSince (obsOf (st, op, (rstep st op).1, (rstep st op).2) :: before) := by
+  cases op with
+  | increment => exact setValue_obs st _ before hinv
+  | setValue v => exact setValue_obs st _ before hinv
+  | setComplete => exact setValue_obs st _ before hinv
+  | setMax m =>
+    simp only [obsOf, rstep, shouldAnnounce, announcedSince, ← hinv]
+    by_cases h : m > st.max <;> simp [h]
+  | reset m =>
+    cases m with
+    | none =>
+      simp only [obsOf, rstep, shouldAnnounce, announcedSince, ← hinv]
+      by_cases h : (0 : Int) < st.max <;> simp [h]
+    | some m =>
+      simp only [obsOf, rstep, shouldAnnounce, announcedSince, ← hinv]
+      by_cases h : (0 : Int) < m <;> by_cases h' : m > st.max <;> simp [h, h']
+
+theorem announceOK_run (ops : List ROp) : ∀ (st : RState) (before : List RObs),
+    st.completed = announcedSince before →
+    announceOK before ((rrun st ops).map obsOf) = true := by
+  induction ops with
+  | nil => intros; rfl
+  | cons op ops ih =>
+    intro st before hinv
+    obtain ⟨h1, h2⟩ := rstep_obs st op before hinv
+    simp only [rrun, List.map_cons, announceOK, Bool.and_eq_true]
+    exact ⟨h1, ih _ _ h2⟩
 
 theorem reporter_announce_ok (ops : List ROp) :
-    announceOK [] ((rrun RState.init ops).map obsOf) = true := by
-  sorry
+    announceOK [] ((rrun RState.init ops).map obsOf) = true :=
+  announceOK_run ops RState.init [] rfl
 
 end PhyVerif.C19.Lemmas
